@@ -395,13 +395,13 @@ func (r *Reader) commentMetaline(line []byte) (f feat.Feature, err error) {
 			return nil, &csv.ParseError{Line: r.line, Err: ErrNotHandled}
 		}
 		r.Version = Version
-		return r.Read()
+		return nil, nil
 	case "source-version":
 		if len(fields) <= 1 {
 			return nil, &csv.ParseError{Line: r.line, Err: ErrBadMetaLine}
 		}
 		r.SourceVersion = string(bytes.Join(fields[1:], []byte{' '}))
-		return r.Read()
+		return nil, nil
 	case "date":
 		if len(fields) <= 1 {
 			return nil, &csv.ParseError{Line: r.line, Err: ErrBadMetaLine}
@@ -412,7 +412,7 @@ func (r *Reader) commentMetaline(line []byte) (f feat.Feature, err error) {
 				return nil, err
 			}
 		}
-		return r.Read()
+		return nil, nil
 	case "Type", "type":
 		if len(fields) <= 1 {
 			return nil, &csv.ParseError{Line: r.line, Err: ErrBadMetaLine}
@@ -421,7 +421,7 @@ func (r *Reader) commentMetaline(line []byte) (f feat.Feature, err error) {
 		if len(fields) > 2 {
 			r.Name = string(fields[2])
 		}
-		return r.Read()
+		return nil, nil
 	case "sequence-region":
 		if len(fields) <= 3 {
 			return nil, &csv.ParseError{Line: r.line, Err: ErrBadMetaLine}
@@ -515,6 +515,10 @@ func (r *Reader) Read() (f feat.Feature, err error) {
 			continue
 		} else if bytes.HasPrefix(line, []byte("##")) {
 			f, err = r.commentMetaline(line[2:])
+			if f == nil && err == nil {
+				// The line only updated the reader's metadata: read on.
+				continue
+			}
 			return
 		} else if line[0] != '#' { // ignore comments
 			break
